@@ -151,9 +151,10 @@ def run(ctx):
     tp = ctx.p("diff.ndjson")
     r = run_bin(bins["diff"], ["--tier", ctx.tier, "--pairs", pairs_path, "--out", tp], env={"VERIF_SEED": ctx.seed})
     stats = json.loads((r.stderr or "{}").strip().splitlines()[-1])
-    jobs = 13
+    jobs = min(14, max(2, NCPU - 2))                # as validate_trace
     n = stats["events"]
-    chunk = max(500, min(20000, -(-n // jobs)))
+    rounds = -(-n // (jobs * 20000))                # at most 20k events per TLC process, whole rounds of `jobs` processes
+    chunk = max(500, -(-n // (jobs * rounds)))
     k = -(-n // chunk)
     tp2, n2 = interleave(ctx, tp, k)
     calib = os.environ.get("C09_CALIB") == "1"
@@ -188,9 +189,9 @@ def run(ctx):
                            "spec/lib/ExpSeries.tla (fixed-point sqrt / exp / atan2 / sin / cos, cross-checked in MC_Diff)",
                            "thresholds and exclusion bands of spec/trace/TraceDiff.tla"],
                   extra={"per_measure": stats.get("per"), "panics": stats.get("panics"), "hue_classes_inhabited": classes,
-                         "agreement_bits_near_threshold_or_calibration": wb,
-                         "thresholds_bits": {"algebraic": "f64 46 / f32 18", "power": "f64 44 / f32 16", "de00": "f64 40 / f32 12 (relative to the coordinates)",
-                                             "polar": "f64 42 / f32 14", "wcag": "f64 46 / f32 18",
+                         "agreement_bits_within_4_of_threshold_or_calibration": wb,
+                         "thresholds_bits": {"algebraic": "f64 46 / f32 18", "power": "f64 45 / f32 17", "de00": "f64 44 / f32 16 (relative to the coordinates)",
+                                             "polar": "f64 44 / f32 16", "wcag": "f64 46 / f32 18",
                                              "bands": "180-degree and mean-hue-0 jumps: 2^-40 deg (f64), 2^-11 deg (f32)"}})
 
 
